@@ -232,7 +232,7 @@ func (s *Service) getForward(conn, kept *pslice.PSlice, skip ...boson.Address) (
 	}
 	if kept != nil && kept.Length() > 0 {
 		var list []boson.Address
-		for _, v := range conn.BinPeers(0) {
+		for _, v := range kept.BinPeers(0) {
 			if !v.MemberOf(skip) {
 				list = append(list, v)
 			}
